@@ -294,7 +294,7 @@ def klist(ck, seq):
     """fault indices worth instantiating: one per real mlock request the fault-free run makes"""
     n = 1 if ck not in ("hba_stack_ro",) else 0     # every constructor but the read-only stack one locks once
     n += sum(1 for op in seq if op == "mlock")
-    return list(range(n)) or [0]
+    return list(range(n))   # programs that never request a lock have no fault point
 
 
 def allocator_harness(name, size):
